@@ -4,7 +4,7 @@ import checklib
 
 
 def regen_twins(ctx):
-    """Hive/Gen/C15_Twins.lean: normalised Trigger/LinkTo bodies of Event, Event1..Event9 (harness/c15/twins)."""
+    """Hive/Gen/C15_Twins.lean: normalised Trigger/LinkTo bodies, type declarations, constructors and method signatures of Event, Event1..Event9 and the list of top-level declarations of events.go (harness/c15/twins)."""
     out = os.path.join(checklib.LEAN, "Hive", "Gen", "C15_Twins.lean")
     tmp = os.path.join(ctx.scratch, "C15_Twins.lean")
     rc, log = checklib.sh(["go", "run", "./c15/twins", tmp, "Hive.Gen.C15Twins",
@@ -95,11 +95,11 @@ SPEC = {
         "C15_skeleton_Notifier_Notify", "C15_skeleton_Notifier_Listener", "C15_skeleton_Event1_OnTrigger",
         "C15_skeleton_Event_Trigger", "C15_skeleton_triggerSettings_currentTriggerExceedsMaxTriggerCount",
         "C15_skeleton_event_linkTo", "C15_skeleton_event_Hook", "C15_skeleton_Hook_Unhook", "C15_skeleton_Event1_Trigger",
-        "C15_skeleton_twins_uniform", "C15_skeleton_Event_OnTrigger", "C15_skeleton_uniqueID_Next", "C15_skeleton_triggerSettings_MaxTriggerCountReached",
+        "C15_skeleton_twins_uniform", "C15_skeleton_twins_decls", "C15_skeleton_Event_OnTrigger", "C15_skeleton_uniqueID_Next", "C15_skeleton_triggerSettings_MaxTriggerCountReached",
         "C15_skeleton_type_triggerSettings", "C15_skeleton_Hook_WorkerPool", "C15_skeleton_triggerSettings_hasWorkerPool",
         "C15_skeleton_OrderedMap_ForEach", "C15_skeleton_OrderedMap_Delete", "C15_skeleton_OrderedMap_Set",
         "C15_skeleton_OrderedMap_Clear", "C15_skeleton_OrderedMap_ForEachReverse", "C15_skeleton_orderedmap_bodies",
-        "C15_orderedmap_wellformed", "C15_orderedmap_frozen_pointers", "C15_orderedmap_queries", "C15_orderedmap_walk",
+        "C15_orderedmap_wellformed", "C15_orderedmap_frozen_pointers", "C15_orderedmap_queries", "C15_orderedmap_walk", "C15_registry_simulation", "C15_registry_simulation_step",
     ],
     "trusted_base": [
         "hand-written models Hive/Model/Events*.lean of runtime/event, runtime/promise, runtime/valuenotifier and of "
